@@ -167,8 +167,10 @@ func NewFloatFromString(typ *types.FloatType, s string) (*Float, error) {
 			}
 			high, low := math.Float64frombits(a), math.Float64frombits(b)
 			switch {
-			case math.IsNaN(high) || math.IsNaN(low):
-				// The sign of a NaN is the sign of its high double.
+			case math.IsNaN(high) || (math.IsNaN(low) && !math.IsInf(high, 0)):
+				// The sign of a NaN is the sign of its high double. (A NaN low
+				// double behind an infinite high double is an infinity, see
+				// below: LLVM classifies a ppc_fp128 by its high double.)
 				x := &big.Float{}
 				if math.Signbit(high) {
 					x.Neg(x)
